@@ -32,7 +32,7 @@ var threadKinds = [][]string{
 	{"close"}, {"write", "close"}, {"write", "close", "wait"}, {"read", "close"}, {"stop"}, {"write", "stop"}, {"close", "wait", "stop"},
 	{"write", "read", "close", "wait"},
 }
-var lossKinds = []string{"none", "drop-first-fin", "loss20", "dead-after-60ms", "dead-from-start", "drop-acks"}
+var lossKinds = []string{"none", "drop-first-fin", "loss20", "dead-after-60ms", "dead-from-start", "drop-acks", "write-error-after-40ms"}
 var timeouts = []time.Duration{0, 2 * time.Second}
 
 type prog struct {
@@ -118,6 +118,9 @@ func run(p prog, seed int64) {
 		return scriptconn.Action{}
 	}
 	n := scriptconn.New(policy)
+	if p.loss == "write-error-after-40ms" {
+		n.FailWritesAfter(40 * time.Millisecond) // the transport starts refusing writes: the muxers stop themselves
+	}
 	lg := logrus.New()
 	lg.SetOutput(io.Discard)
 	ma := tubes.Client(n.A, &tubes.Config{Log: logrus.NewEntry(lg), Timeout: p.tmo})
